@@ -63,7 +63,8 @@ Record sec := mksec { s_prev : option nat; s_own : nat; s_pay : pay }.
 Record proxy := mkpx { buf : text; queue : list item; fth : fstate; handed : list text }.
 Record env := mkenv { app : bool; running : bool; lid : nat; lclosed : bool;
                       loopq : list text;
-                      ctx : bool  (* which session the rig created the proxy in; no step reads it *) }.
+                      ctx : bool; (* which session the rig created the proxy in; no step reads it *)
+                      patched : bool (* sys.stdout / sys.stderr are the proxy (inside `with patch_stdout():`) *) }.
 Record chain := mkch { nextf : nat; lastf : option nat; donef : list nat;
                        waitq : list sec; active : option nat; started : list nat }.
 (* cursor position requests (Renderer._waiting_for_cpr_futures, cpr_support):
@@ -79,10 +80,14 @@ Inductive label :=
 | LFGet | LFNowait | LFChoose | LFDeliver
 | LAppStart | LAppExit | LAppStop | LLoopClose | LLoopStep | LRender
 | LExtBegin | LExtEnd | LWake (i : nat)
-| LCprAnswer | LCprTimeout.
+| LCprAnswer | LCprTimeout
+(* patch_stdout(): print()/sys.stdout.write/flush from thread t (reaches the proxy only
+   while sys.stdout is the proxy), and the first half of the context manager's exit
+   (streams restored; the second half is LClose) *)
+| LPW (t : Z) (d : text) | LPFlush (t : Z) | LRestore.
 
 Definition init2 (c r : bool) : st :=
-  mkst (mkpx [] [] FIdle []) (mkenv false false O false [] c)
+  mkst (mkpx [] [] FIdle []) (mkenv false false O false [] c true)
        (mkch O None [] [] None []) [] [] (mkcp O false false r).
 Definition init (c : bool) : st := init2 c false.
 
@@ -194,7 +199,7 @@ Definition inval_render (run : bool) (c : chain) : list ev :=
 
 Definition set_fth (p : proxy) (f : fstate) (h : list text) : proxy := mkpx (buf p) (queue p) f h.
 Definition set_loopq (e : env) (q : list text) : env :=
-  mkenv (app e) (running e) (lid e) (lclosed e) q (ctx e).
+  mkenv (app e) (running e) (lid e) (lclosed e) q (ctx e) (patched e).
 
 Definition step (s : st) (l : label) : st :=
   let p := px s in let e := en s in let c := ch s in let k := cp s in
@@ -225,21 +230,21 @@ Definition step (s : st) (l : label) : st :=
       end
   | LAppStart =>
       if negb (app e) && negb (running e)
-      then mkst p (mkenv true true (if lclosed e then S (lid e) else lid e) false (loopq e) (ctx e)) c
+      then mkst p (mkenv true true (if lclosed e then S (lid e) else lid e) false (loopq e) (ctx e) (patched e)) c
                 (out s ++ [ERender]) (lost s) (request true k)
       else s
   | LAppExit =>
       if app e && running e
-      then mkst p (mkenv true false (lid e) (lclosed e) (loopq e) (ctx e)) c
+      then mkst p (mkenv true false (lid e) (lclosed e) (loopq e) (ctx e) (patched e)) c
                 (out s ++ match active c with None => [ERender] | Some _ => [] end) (lost s) k
       else s
   | LAppStop =>
       if app e && negb (running e) && fdone c (lastf c) && Nat.eqb (cprq k) 0
-      then mkst p (mkenv false false (lid e) (lclosed e) (loopq e) (ctx e)) c (out s) (lost s) k
+      then mkst p (mkenv false false (lid e) (lclosed e) (loopq e) (ctx e) (patched e)) c (out s) (lost s) k
       else s
   | LLoopClose =>
       if negb (app e) && negb (lclosed e)
-      then mkst p (mkenv false (running e) (lid e) true [] (ctx e)) c (out s) (lost s ++ loopq e) k
+      then mkst p (mkenv false (running e) (lid e) true [] (ctx e) (patched e)) c (out s) (lost s ++ loopq e) k
       else s
   | LLoopStep =>
       if lclosed e then s else
@@ -285,6 +290,9 @@ Definition step (s : st) (l : label) : st :=
           else s
       | None => s
       end
+  | LPW _ d => if patched e then mkst (do_write p d) e c (out s) (lost s) k else s
+  | LPFlush _ => if patched e then mkst (do_flush p) e c (out s) (lost s) k else s
+  | LRestore => mkst p (mkenv (app e) (running e) (lid e) (lclosed e) (loopq e) (ctx e) false) c (out s) (lost s) k
   | LCprAnswer =>
       (* the terminal's report is read from the (attached) input: the oldest future is
          resolved; the key binding's call invalidates the application, so a render
@@ -311,7 +319,7 @@ Definition run (s : st) (ls : list label) : st := fold_left step ls s.
 Definition enabled (s : st) (l : label) : bool :=
   let p := px s in let e := en s in let c := ch s in
   match l with
-  | LW _ _ | LFlush _ | LClose => true
+  | LW _ _ | LFlush _ | LClose | LPW _ _ | LPFlush _ | LRestore => true
   | LFGet => match fth p, queue p with FIdle, _ :: _ => true | _, _ => false end
   | LFNowait => match fth p with FCollect _ _ => true | _ => false end
   | LFChoose => match fth p with FDrained _ _ => true | _ => false end
@@ -382,11 +390,24 @@ Definition brk_run (l : list ev) : option bool := fold_left brk_step l (Some fal
 Definition ev_ok (e : ev) : bool :=
   match e with EWrite _ run interm => negb run || interm | _ => true end.
 
+(* labels that act on the proxy object directly; print()/sys.stdout.flush() through
+   the patched stream (LPW/LPFlush) are, by [desugar], either such a label or nothing *)
+Definition raw_label (l : label) : bool :=
+  match l with LPW _ _ | LPFlush _ => false | _ => true end.
+Fixpoint desugar (p : bool) (ls : list label) : list label :=
+  match ls with
+  | [] => []
+  | LPW t d :: r => if p then LW t d :: desugar p r else desugar p r
+  | LPFlush t :: r => if p then LFlush t :: desugar p r else desugar p r
+  | LRestore :: r => LRestore :: desugar false r
+  | l :: r => l :: desugar p r
+  end.
+
 Definition no_lifecycle (l : label) : bool :=
-  match l with LAppStart | LAppExit | LAppStop | LLoopClose => false | _ => true end.
+  match l with LAppStart | LAppExit | LAppStop | LLoopClose | LPW _ _ | LPFlush _ => false | _ => true end.
 (* the application, once started, is not stopped or restarted (it may exit) *)
 Definition app_alive (l : label) : bool :=
-  match l with LAppStart | LAppStop | LLoopClose => false | _ => true end.
+  match l with LAppStart | LAppStop | LLoopClose | LPW _ _ | LPFlush _ => false | _ => true end.
 
 (* ---- wire format ---- *)
 Definition sx_nat (n : nat) : sx := A (Z.of_nat n).
@@ -448,6 +469,9 @@ Definition label_of_sx (x : sx) : option label :=
   | L [A 15] => Some LExtEnd
   | L [A 16; i] => match nat_of_sx i with Some n => Some (LWake n) | None => None end
   | L [A 17] => Some LCprAnswer
+  | L [A 19; A t; d] => match as_str d with Some d' => Some (LPW t d') | None => None end
+  | L [A 20; A t] => Some (LPFlush t)
+  | L [A 21] => Some LRestore
   | L [A 18] => Some LCprTimeout
   | _ => None
   end.
@@ -474,11 +498,15 @@ Fixpoint run_obs (s : st) (steps : list (label * bool)) (acc : list sx) : st * l
 
 (* case: (0 ctx steps) -> ((obs ...) final) ;  (1 ctx labels candidates) -> enabled flags *)
 (* configuration of a case: bit 0 = proxy created in the default session,
-   bit 1 = the output responds to cursor position requests *)
+   bit 1 = the output responds to cursor position requests, bit 2 = rig only *)
 Definition cfg_of_sx (x : sx) : option (bool * bool) :=
   match x with
   | A 0 => Some (false, false) | A 1 => Some (true, false)
   | A 2 => Some (false, true) | A 3 => Some (true, true)
+  (* bit 2 (the rig runs the application asyncio.run-style and schedules close the
+     loop right after AppStop) changes nothing in the model *)
+  | A 4 => Some (false, false) | A 5 => Some (true, false)
+  | A 6 => Some (false, true) | A 7 => Some (true, true)
   | _ => None
   end.
 
